@@ -20,6 +20,10 @@ Proof. unfold pj_qin. cbn [forget_chunks c_in_status c_in_state c_in_state_previ
 Definition pj_intx (i : pj_in) : option nat := snd i.
 Lemma pj_qin_intx c i : pj_qin c = i -> c_in_tx c = pj_intx i.
 Proof. intros E. rewrite <- E. reflexivity. Qed.
+(* the stream status of the request side: htp_tx_state_response_complete_ex yields to a request side that waits (HTP_STREAM_DATA_OTHER) *)
+Definition pj_instat (i : pj_in) : Z := fst (fst (fst (fst i))).
+Lemma pj_qin_instat c i : pj_qin c = i -> c_in_status c = pj_instat i.
+Proof. intros E. rewrite <- E. reflexivity. Qed.
 Record pj_world := mk_pj_world { jw_pre : list (option tx); jw_post : list (option tx); jw_in : pj_in }.
 Definition pj_k (w : pj_world) : nat := length (jw_pre w).
 Definition pj_txs (w : pj_world) (t : tx) : list (option tx) := jw_pre w ++ Some t :: jw_post w.
@@ -43,7 +47,7 @@ Record pj_cinw (w : pj_world) (c : connp) (d : bytes) (rd : nat) (p : bytes) (hd
   ji_tx : c_out_tx c = Some (pj_k w);
   ji_txs : c_txs c = (pj_txs w t);
   ji_shift : c_txs_shifted c = 0%nat;
-  ji_intx : c_in_tx c <> Some (pj_k w);
+  ji_intx : (c_in_status c =? c_HTP_STREAM_DATA_OTHER)%Z = false;
   ji_other : c_out_data_other_at_tx_end c = false;
   ji_next : c_out_next_tx_index c = S (pj_k w);
   ji_in : pj_qin c = jw_in w }.
@@ -59,7 +63,7 @@ Record pj_midw (w : pj_world) (c : connp) (p : bytes) (hdr : option bytes) (st :
   jm_tx : c_out_tx c = Some (pj_k w);
   jm_txs : c_txs c = (pj_txs w t);
   jm_shift : c_txs_shifted c = 0%nat;
-  jm_intx : c_in_tx c <> Some (pj_k w);
+  jm_intx : (c_in_status c =? c_HTP_STREAM_DATA_OTHER)%Z = false;
   jm_other : c_out_data_other_at_tx_end c = false;
   jm_next : c_out_next_tx_index c = S (pj_k w);
   jm_in : pj_qin c = jw_in w }.
@@ -101,7 +105,8 @@ Lemma pj_cin_ext c c' d rd p hdr st prev rh t : pj_cin c d rd p hdr st prev rh t
   pj_cin c' d rd p hdr st prev rh t.
 Proof.
   intros [A1 A2 A3 A4 A5 A6 A7 A8 A9 A10 A11 A12 A13 A14 A15 A16 A17 A18 A19] E1 E2 E3 E4 E5 E6 E7 E8 E9 E10 E11.
-  constructor; rewrite ?E1, ?E2, ?E3, ?E4, ?E5, ?E6, ?E7, ?E8, ?E9, ?E10, ?E11; assumption.
+  pose proof (f_equal pj_instat E11) as Es. unfold pj_instat, pj_qin in Es. cbn [fst] in Es.
+  constructor; rewrite ?E1, ?E2, ?E3, ?E4, ?E5, ?E6, ?E7, ?E8, ?E9, ?E10, ?E11, ?Es; assumption.
 Qed.
 Lemma pj_cin_txs c d rd p hdr st prev rh t t' : pj_cin c d rd p hdr st prev rh t -> pj_cin (c <| c_txs := pj_txs w t' |>) d rd p hdr st prev rh t'.
 Proof. intros [A1 A2 A3 A4 A5 A6 A7 A8 A9 A10 A11 A12 A13 A14 A15 A16 A17 A18 A19]. constructor; try assumption; reflexivity. Qed.
